@@ -13,11 +13,13 @@ outcome: it is not an outcome of the real code at all.
 
 Only property theorems live here (each is audited with `#print axioms`); helper lemmas are in
 `RuschmProofs/SafeFront.lean` (lexer, reader, macro builders, `toStatement`),
-`RuschmProofs/SafeLemmas.lean` (native procedures), `RuschmProofs/SafeUsable.lean` (the probe).
+`RuschmProofs/SafeExpand.lean` (macro expansion keeps data `n/0`-free, `toStatement` produces `ok`
+code), `RuschmProofs/SafeLemmas.lean` (native procedures), `RuschmProofs/SafeUsable.lean` (the probe).
 Vocabulary (`NoPanic`, `ratOk`, `ok`, `Value.Safe`, `Store.Safe`, `Interp.Safe`) is defined in
 `RuschmSpec/Safe.lean`.
 -/
 import RuschmProofs.SafeFront
+import RuschmProofs.SafeExpand
 import RuschmProofs.SafeLemmas
 import RuschmProofs.SafeUsable
 
@@ -79,6 +81,36 @@ theorem xform_no_panic (fuel : Nat) (d : Datum) (env : Xform.SynEnv) :
   noPanic_iff.2 fun _ h => Xform.toStatement_np fuel d env h
 
 example : (Xform.toStatement 10 (.nil none) []).1 = .error (.syntax, none) := rfl
+
+/-! ## 2. What the front end hands to the evaluator is `ok` code -/
+
+/-- Transformers built from `n/0`-free data have `n/0`-free templates. -/
+theorem rules_rat_ok {k : String} {d : Datum} {r : Macro.Rules} (h : Macro.toRules k d = .ok r)
+    (hd : d.ratOk = true) : r.RatOK :=
+  Macro.toRules_ratOk h hd
+
+/-- Macro expansion keeps data free of `n/0`: the table only ever holds sub-data of the use, and
+the template is `n/0`-free. -/
+theorem expansion_rat_ok {fuel : Nat} {r : Macro.Rules} {use d : Datum} (hr : r.RatOK)
+    (hu : use.ratOk = true) (h : Macro.transform fuel r use = .ok d) : d.ratOk = true :=
+  Macro.transform_ratOk hr hu h
+
+/-- Every statement `toStatement` produces from `n/0`-free data in an `n/0`-free syntax
+environment is `ok`: every lambda in it (recursively) has a non-empty body (`toBody` rejects an
+empty one) and every literal is free of `n/0`; the syntax environment stays `n/0`-free. -/
+theorem xform_bodies_ok {fuel : Nat} {d : Datum} {env : Xform.SynEnv} (hd : d.ratOk = true)
+    (he : Xform.SynEnv.RatOK env) :
+    Xform.SynEnv.RatOK (Xform.toStatement fuel d env).2 ∧
+      ∀ st, (Xform.toStatement fuel d env).1 = .ok st → st.ok = true :=
+  Xform.toStatement_ok hd he
+
+/-- an empty body is rejected -/
+example : (Xform.toStatement 10 (.pair (.sym "lambda" none) (.pair (.nil none) (.nil none) none) none) []).1 =
+    .error (.syntax, none) := rfl
+/-- the hypothesis is needed: a datum with `1/0` in it (the reader never produces one) transforms
+into code that is not `ok` -/
+example : (Xform.toStatement 10 (.prim (.rat 1 0) none) []).1 = .ok (.expr (.prim (.rat 1 0) none)) ∧
+    (Statement.expr (.prim (.rat 1 0) none)).ok = false := ⟨rfl, rfl⟩
 
 /-! ## 3. The native procedures -/
 
